@@ -24,7 +24,7 @@ CONSTANTS
   Ops <- mcOps
   Setup <- mcSetup
   ProjOfName <- mcProjOfName
-  Depth = 8
+  Depth = 9
   AttBound = 100
   ViewKeep = {}
   RealBackoff = FALSE
